@@ -140,6 +140,9 @@ class C17(Check):
         # every parse yields the tree of the text
         for i in range(20 if tier == 'quick' else 400):
             out.append({'kind': 'twice', 'tree': X.gen_tree(rng, comments=True), 'huge': i % 2 == 0, 'how': ['replace_ns', 'move_child', 'set_attr', 'clear'][i % 4]})
+        # several threads parse back LARGE documents (more than a million characters each) at the same time: each gets its own tree
+        for i in range(1 if tier == 'quick' else 6):
+            out.append({'kind': 'bigpar', 'threads': 3, 'rounds': 3, 'chars': 1200000 + 50000 * i, 'huge': i % 2 == 1})
         out.append({'kind': 'ctor', 'steps': [['new_ele+nsmap-default', 'hello', 'urn:a'], ['sub_ele', 0, 'capabilities', 'urn:a', None, None],
                                               ['sub_ele', 1, 'capability', 'urn:a', 'urn:x', None]]})
         return out
@@ -173,6 +176,26 @@ class C17(Check):
                 self._last_plain = {}
             self._last_plain[id(case)] = res
             return res
+        if k == 'bigpar':
+            import threading
+            errs = []
+
+            def work(ti):
+                for r in range(case['rounds']):
+                    n = case['chars'] // 40
+                    doc = '<d%d xmlns="urn:t%d">%s</d%d>' % (ti, ti, ''.join('<item k="%d">value-%d-%d é</item>' % (j, ti, j) for j in range(n)), ti)
+                    try:
+                        el = nx.to_ele(nx.to_xml(etree.fromstring(doc.encode('utf-8'))), huge_tree=case['huge'])
+                        if el.tag != '{urn:t%d}d%d' % (ti, ti) or len(el) != n or el[-1].text != 'value-%d-%d é' % (ti, n - 1):
+                            errs.append('thread %d: wrong tree (%s, %d children)' % (ti, el.tag, len(el)))
+                    except Exception as e:
+                        errs.append('thread %d: %s: %s' % (ti, type(e).__name__, str(e)[:60]))
+            ths = [threading.Thread(target=work, args=(ti,), daemon=True) for ti in range(case['threads'])]
+            for t in ths:
+                t.start()
+            for t in ths:
+                t.join(120)
+            return {'errs': errs[:3], 'n_err': len(errs)}
         if k == 'twice':
             xml = nx.to_xml(X.to_lxml(case['tree']))
             first = nx.to_ele(xml, huge_tree=case['huge'])
@@ -347,6 +370,10 @@ class C17(Check):
             if not io['root_ok']:
                 return ('C17:parse-root-disagrees', 'parse_root gives %s, the full parse %s (%s)' % (io['root_got'], io['root_full'], tag))
             return None
+        if k == 'bigpar':
+            if io['n_err']:
+                return ('C17:concurrent-parse', '%d threads parsing back documents of %d characters at the same time: %d failures (%s)' % (case['threads'], case['chars'], io['n_err'], io['errs']))
+            return None
         if k == 'twice':
             if io['same_object'] or io['second'] != io['want'] or X.canon(X.drop_comments(io['second'])) != io['indep']:
                 return ('C17:parse-depends-on-earlier-parse', 'the same text parsed a second time (huge_tree=%s) after the first result had been changed in place (%s) '
@@ -396,7 +423,7 @@ class C17(Check):
             return 1 + sum(size(c) for c in n[-1]) if n[0] == 'E' else 1
         if 'tree' in case:
             return size(case['tree']) >= 3
-        if case['kind'] == 'raw':
+        if case['kind'] in ('raw', 'bigpar'):
             return True
         return len(case['steps']) >= 3
 
